@@ -259,21 +259,26 @@ class SendEventResponse(StreamingResponse[ServerSentEvent]):
                     g.close()  # type: ignore
 
         push_future = self.thread_pool.submit(push)
+        got_sentinel = False
 
         try:
             while not (push_future.done() and q.empty()):
                 try:
                     event = q.get(timeout=self.ping_interval)
                     if event is None:
+                        got_sentinel = True
                         break
                     yield build_bytes_from_sse(event, self.charset)
                 except queue.Empty:
                     yield b": ping\n\n"
         finally:
             should_stop = True
-            while not q.empty():
-                q.get_nowait()  # pragma: no cover
             if not push_future.cancel():
+                # A relay that has started always ends by putting the ``None``
+                # sentinel.  Keep taking until it arrives, so that every put
+                # it still makes finds a taker; only then wait for the thread.
+                while not got_sentinel:
+                    got_sentinel = q.get() is None
                 exc = push_future.exception()
                 if exc is not None:
                     raise exc
